@@ -136,14 +136,15 @@ var orgNames = []string{"orga", "orgb", "orgc"}
 type orgFns struct {
 	log, logf, dyn func(int, string, int, func())
 	via            func(*log.ContextTracer, int, string)
+	probe          func(context.Context, int, string) bool
 	tracer         func() *log.ContextTracer
 	collect        func(*log.ContextTracer, []orga.Entry, func())
 	collectf       func(*log.ContextTracer, []orga.Entry, func())
 }
 
 var orgs = []orgFns{
-	{orga.Log, orga.Logf, orga.LogDyn, orga.Via, orga.Tracer, orga.Collect, orga.Collectf},
-	{orgb.Log, orgb.Logf, orgb.LogDyn, orgb.Via, orgb.Tracer, func(t *log.ContextTracer, e []orga.Entry, f func()) {
+	{orga.Log, orga.Logf, orga.LogDyn, orga.Via, orga.ProbeTracer, orga.Tracer, orga.Collect, orga.Collectf},
+	{orgb.Log, orgb.Logf, orgb.LogDyn, orgb.Via, orgb.ProbeTracer, orgb.Tracer, func(t *log.ContextTracer, e []orga.Entry, f func()) {
 		x := make([]orgb.Entry, len(e))
 		for i := range e {
 			x[i] = orgb.Entry(e[i])
@@ -156,7 +157,7 @@ var orgs = []orgFns{
 		}
 		orgb.Collectf(t, x, f)
 	}},
-	{orgc.Log, orgc.Logf, orgc.LogDyn, orgc.Via, orgc.Tracer, func(t *log.ContextTracer, e []orga.Entry, f func()) {
+	{orgc.Log, orgc.Logf, orgc.LogDyn, orgc.Via, orgc.ProbeTracer, orgc.Tracer, func(t *log.ContextTracer, e []orga.Entry, f func()) {
 		x := make([]orgc.Entry, len(e))
 		for i := range e {
 			x[i] = orgc.Entry(e[i])
@@ -288,7 +289,7 @@ type callRec struct {
 	item    int
 	lvl     int
 	org     int
-	cfg     int  // id of the level configuration in force during the whole call; -1: changed during the call
+	cfg     int  // id of the level configuration in force during the whole call (tracer submission: from before AddTracer until Submit returned); -1: changed meanwhile
 	before  bool // the call returned before Shutdown was requested
 	variant int  // 0: Info(msg) …, 1: Infof("%s", msg) … (another call site)
 	kind    byte // 'p' plain call, 't' tracer submission, 'x' / 'X' unfinished (any form, optional; X: as a tracer line)
@@ -302,6 +303,9 @@ func entID(item, lvl int) int {
 	}
 	return item*8 + lvl
 }
+
+// entLevel is the severity of a collected entry, read back from its id.
+func entLevel(id int) int { return id % 8 }
 
 func (c *child) key(r callRec) int {
 	if c.spec.Light {
@@ -321,6 +325,28 @@ type prodState struct {
 	done       bool
 	curVariant int // call-site variant of the call in progress (written and read on the producer goroutine)
 	curLvl     int // the severity that call is made at (as the program says, not as the logger reports it)
+	tas        []string // "ta <cfg> <org> <existing> <live>": AddTracer calls made under a configuration that did not change meanwhile
+}
+
+// maxTas bounds the recorded AddTracer calls per goroutine.
+const maxTas = 600
+
+// addTracer asks the origin package for a context tracer and records the outcome together with the
+// configuration in force (if it did not change during the call). It returns the epoch read BEFORE the call:
+// the life of a live tracer — the "call" its submission is judged as — starts there.
+func (c *child) addTracer(ps *prodState, org int) (*log.ContextTracer, int64) {
+	ea := c.epoch.Load()
+	t := orgs[org].tracer()
+	if eb := c.epoch.Load(); ea == eb && ea%2 == 0 && len(ps.tas) < maxTas {
+		live := 0
+		if t != nil {
+			live = 1
+		}
+		ps.mu.Lock()
+		ps.tas = append(ps.tas, fmt.Sprintf("ta %d %d 0 %d", ea/2, org, live))
+		ps.mu.Unlock()
+	}
+	return t, ea
 }
 
 type child struct {
@@ -657,7 +683,7 @@ func (c *child) runProducer(gid int, prog []Op, wg *sync.WaitGroup) {
 				vC, collect = vCollF, orgs[op.Org].collectf
 			}
 			ps.curVariant = vC
-			t := orgs[op.Org].tracer()
+			t, eLife := c.addTracer(ps, op.Org)
 			es := make([]orga.Entry, len(op.Entries))
 			ids := make([]int, len(op.Entries))
 			for k, e := range op.Entries {
@@ -680,8 +706,10 @@ func (c *child) runProducer(gid int, prog []Op, wg *sync.WaitGroup) {
 				})
 				break
 			}
+			// a live tracer: its level decision was taken by AddTracer, for everything it collects — the submission
+			// is judged under the configuration in force from before AddTracer until Submit has returned
 			collect(t, es, func() {})
-			e1 = c.epoch.Load()
+			e1 = eLife
 			if len(es) > 0 {
 				ps.curLvl = es[len(es)-1].Lvl
 			}
@@ -697,11 +725,12 @@ func (c *child) runProducer(gid int, prog []Op, wg *sync.WaitGroup) {
 			via := orgs[op.Org].via
 			for rep := 0; rep < max(op.Reps, 1); rep++ {
 				var t *log.ContextTracer
+				var eLife int64
 				ents := op.Entries
 				if op.Nil {
 					ents = nil
 				} else {
-					t = orgs[op.Org].tracer()
+					t, eLife = c.addTracer(ps, op.Org)
 				}
 				if t == nil {
 					for _, e := range ents {
@@ -722,7 +751,7 @@ func (c *child) runProducer(gid int, prog []Op, wg *sync.WaitGroup) {
 					ids[k] = entID(e.Item, e.Lvl)
 				}
 				via(t, op.Lvl, msgText(gid, op.Item))
-				e1 = c.epoch.Load()
+				e1 = eLife // the tracer's whole life, see the tr op
 				ps.curLvl = op.Lvl
 				t.Submit()
 				rec(callRec{item: op.Item, lvl: op.Lvl, org: op.Org, variant: vVia, kind: 't', entries: ids})
@@ -989,6 +1018,9 @@ func childMain() {
 			continue
 		}
 		ps.mu.Lock()
+		for _, ta := range ps.tas {
+			fmt.Fprintln(w, ta)
+		}
 		calls := append([]callRec{}, ps.calls...)
 		paths := append([]string{}, ps.paths...)
 		opIdx, opCalls, done := ps.opIdx, ps.opCalls, ps.done
